@@ -85,7 +85,8 @@ func genCompile() {
 	type site struct{ file, fn, expr string }
 	var sites []site
 	var convs []site
-	var idCheck, enumPrev string
+	var idCheck, enumPrev, enumCheck string
+	var rangeCalls []string
 	for i, f := range files {
 		for _, d := range f.Decls {
 			fd, ok := d.(*ast.FuncDecl)
@@ -102,6 +103,9 @@ func genCompile() {
 						}
 					}
 				case *ast.CallExpr:
+					if sel, ok := x.Fun.(*ast.SelectorExpr); ok && sel.Sel.Name == "inRange" && key == "ConstantInt.Link" {
+						rangeCalls = append(rangeCalls, nodeText(fset, x))
+					}
 					if id, ok := x.Fun.(*ast.Ident); ok && len(x.Args) == 1 {
 						switch id.Name {
 						case "int8", "int16", "int32", "int64", "uint8", "uint16", "uint32", "uint64", "int", "float64", "float32":
@@ -113,6 +117,12 @@ func genCompile() {
 						t := nodeText(fset, x.Cond)
 						if strings.Contains(t, "src.ID") {
 							idCheck = t
+						}
+					}
+					if key == "compileEnum" && enumCheck == "" {
+						t := nodeText(fset, x.Cond)
+						if strings.Contains(t, "math.") {
+							enumCheck = t
 						}
 					}
 				case *ast.AssignStmt:
@@ -138,7 +148,7 @@ func genCompile() {
 	sortSites(sites)
 	sortSites(convs)
 
-	l := newLean("GenCompile", "compile/: map-range sites, integer conversions, field-id bounds check, enum start value")
+	l := newLean("GenCompile", "compile/: map-range sites, integer conversions, bounds checks for field ids / enum values / integer constants, enum start value")
 	emit := func(name string, s []site) {
 		fmt.Fprintf(&l.sb, "def %s : List (String × String × String) := [", name)
 		for i, x := range s {
@@ -153,5 +163,7 @@ func genCompile() {
 	emit("conversions", convs)
 	l.str("fieldIdCheck", idCheck)
 	l.str("enumPrevInit", enumPrev)
+	l.str("enumValueCheck", enumCheck)
+	l.strList("intRangeChecks", rangeCalls)
 	l.write("GenCompile")
 }
